@@ -279,6 +279,26 @@ impl Property for C02 {
                 out.push(v);
             }
         }
+        // programs on the widths of the format (254..257 arguments, members, locals): whatever
+        // the compiler emits for the ones it accepts must be well-formed
+        for (i, (name, src)) in crate::gen::limits::programs().into_iter().enumerate() {
+            if !ctx.shard_mine(i + 5) {
+                continue;
+            }
+            if let Ok(ast) = fmlrun::parse(&src) {
+                if fmlrun::compile(&ast).is_err() {
+                    // beyond a width of the format: the compiler may refuse (C11 checks that every build does)
+                    ctx.label("limit-program-refused");
+                    continue;
+                }
+                let prog = from_fml_ast(&ast);
+                ctx.label("limit-program");
+                if let Err(mut v) = judge_source(&prog, ctx, &name) {
+                    v.detail = format!("[limit program {}] {}", name, v.detail);
+                    out.push(v);
+                }
+            }
+        }
         // the repository's own programs
         for (i, f) in crate::tools::repo_fml_files(crate::FML_ROOT).iter().enumerate() {
             if !ctx.shard_mine(i) {
